@@ -16,7 +16,8 @@ RULE = ("constructors: every name = letter x every '#'/'b' string up to length k
         "must be folded to the other sign. Non-trivial pair: different letters and (an input with >= 2 accidentals or "
         "a descending pitch-class difference, i.e. the mod-12 wrap). Also: Hypothesis pairs with accidental strings of "
         "length 0..40 (half of them on one letter); every pair with <= 2 accidentals with the flag omitted, passed by keyword "
-        "and given as a number (0, 1, 0.0, 2).")
+        "and given as a number (0, 1, 0.0, 2); every constructor asked right after every other one on the same root; accidental strings that lean "
+        "to one sign with a few signs of the other kind in between.")
 ASSUMPTIONS = [
     "oracle: own constructor table (interval number, semitones) and letter/semitone arithmetic in vlib/ref/theory.py",
     "spelling is compared as (letter, pitch class, unmixed, <= 6 accidentals), never as an exact accidental string",
@@ -146,7 +147,18 @@ def check_pair_forms(ctx, case):
 
 
 check_constructor = latched("constructor", check_constructor)  # a broken correction loop never terminates
-CHECKS = {"constructor": check_constructor, "pair": check_pair, "pair_forms": check_pair_forms}
+def check_constructor_after(ctx, case):
+    """constructor c2 asked right after constructor c1 on the same root (and after a question on another root): same answer"""
+    c1, c2, name = case
+    try:
+        intervals.major_second("C" if name != "C" else "D")
+        getattr(intervals, c1)(name)
+    except Exception:  # noqa - judged in that constructor's own case
+        pass
+    check_constructor(ctx, [c2, name])
+
+
+CHECKS = {"constructor": check_constructor, "pair": check_pair, "pair_forms": check_pair_forms, "constructor_after": check_constructor_after}
 
 
 def _shard(seq, shard, nshards):
@@ -164,9 +176,11 @@ def sub_constructors(ctx, shard, n):
 
 
 def sub_constructors_long(ctx, shard, n):
+    from vlib.strats import lopsided_accidentals
     name = st.builds(lambda l, a: l + a, st.sampled_from(T.LETTERS),
                      st.text(alphabet="#b", min_size=6, max_size=40)
-                     | st.builds(lambda s, k: s * k, st.sampled_from("#b"), st.integers(6, 40)))
+                     | st.builds(lambda s, k: s * k, st.sampled_from("#b"), st.integers(6, 40))
+                     | lopsided_accidentals(48) | lopsided_accidentals(48))
     strat = st.tuples(st.sampled_from(CONSTRUCTOR_NAMES), name).map(list)
     ctx.given("constructor", check_constructor, strat, 1500 if ctx.quick else 40000)
 
@@ -179,6 +193,14 @@ def sub_pairs(ctx, shard, n):
     ctx.enumerate("pair", check_pair, ([a, b] for a in _shard(names, shard, n) for b in names))
 
 
+def sub_constructor_pairs(ctx, shard, n):
+    names = T.unmixed_names(2)
+    cases = [[c1, c2, nm] for nm in names for c1 in CONSTRUCTOR_NAMES for c2 in CONSTRUCTOR_NAMES if c1 != c2]
+    if shard == 0:
+        ctx.exhaustive("constructor c2 right after constructor c1 on the same root", "35 names x 17 x 16", len(cases))
+    ctx.enumerate("constructor_after", check_constructor_after, cases[shard::n])
+
+
 def sub_pair_forms(ctx, shard, n):
     names = T.all_names(2)
     if shard == 0:
@@ -189,8 +211,8 @@ def sub_pair_forms(ctx, shard, n):
 def sub_pairs_long(ctx, shard, n):
     """pairs whose accidental strings are far longer than the enumerated bound; half of them on one letter, so that the
     difference is carried by the accidentals alone (gaps of a whole octave and more in either direction)"""
-    acc = (st.text(alphabet="#b", min_size=0, max_size=40)
-           | st.builds(lambda s, k: s * k, st.sampled_from("#b"), st.integers(0, 40)))
+    from vlib.strats import any_accidentals
+    acc = any_accidentals(40)
     letter = st.sampled_from(T.LETTERS)
     pair = st.one_of(
         st.tuples(letter, acc, acc).map(lambda t: [t[0] + t[1], t[0] + t[2]]),
@@ -203,5 +225,6 @@ SUBS = [
     Sub("constructors_long", sub_constructors_long, quick=1, thorough=4),
     Sub("pairs", sub_pairs, quick=4, thorough=16),
     Sub("pair_forms", sub_pair_forms, quick=2, thorough=2),
+    Sub("constructor_pairs", sub_constructor_pairs, quick=2, thorough=4),
     Sub("pairs_long", sub_pairs_long, quick=1, thorough=4),
 ]
